@@ -230,6 +230,8 @@ class MCNP_Parser(Parser, metaclass=MetaBuilder):
         "shortcut_start INTERPOLATE padding number_phrase",
         "shortcut_start NUM_LOG_INTERPOLATE padding number_phrase",
         "shortcut_start LOG_INTERPOLATE padding number_phrase",
+        "shortcut_start NUM_INTERPOLATE padding null_phrase",
+        "shortcut_start INTERPOLATE padding null_phrase",
         "NUM_JUMP",
         "JUMP",
     )
@@ -246,6 +248,10 @@ class MCNP_Parser(Parser, metaclass=MetaBuilder):
             list_node.append(p[0])
             list_node.append(short_cut)
             return list_node
+        if type(p[0]) == syntax_node.ListNode:
+            # a third, fourth ... shortcut chained onto the ones before it
+            p[0].append(short_cut)
+            return p[0]
         return short_cut
 
     @_("shortcut_sequence", "shortcut_sequence padding")
